@@ -249,7 +249,7 @@ func c10Specs(tier string) []*h.SeqSpec {
 		// a legal nested name whose directory is where r keeps the blob l2; the directory store has to refuse it (a name
 		// the stores do not both accept: its own content is not compared, that of r is)
 		blob("r/blobs/sha256/"+strings.TrimPrefix(f.Items["l2"].Dig, "sha256:"), "c")
-		for _, p := range []string{"/v2/r/manifests/t", "/v2/r/manifests/" + f.Items["I1"].Dig, "/v2/r/manifests/" + f.Items["X2"].Dig, "/v2/r/blobs/" + f.Items["l2"].Dig, "/v2/r/n/manifests/t"} {
+		for _, p := range []string{"/v2/r/manifests/t", "/v2/r/manifests/" + f.Items["I1"].Dig, "/v2/r/manifests/" + f.Items["X2"].Dig, "/v2/r/blobs/" + f.Items["l2"].Dig, "/v2/r/n/manifests/t", "/v2/r/manifests/" + f.Items["A1"].Dig} {
 			p := p
 			ops = append(ops, h.Op{Name: "DELETE " + strings.Replace(p, "sha256:", "", 1)[:minInt(len(p), 40)], Do: func(w *h.World) []h.Violation { w.Delete(p); return nil }})
 		}
